@@ -200,7 +200,7 @@ pub fn run(cfg: &Cfg) -> Report {
             st.inc("histories_of_scripts_with_a_stateful_last_instruction_in_a_stream_fold", 1);
         }
         let last_tag = if any_last { super::taint::SUFFIX_LAST } else if last_script { super::taint::SUFFIX_LAST_SCRIPT } else { "" };
-        let suffix = format!("{}{}", if any_dropped { super::taint::SUFFIX } else { "" }, last_tag);
+        let suffix = if last_tag.is_empty() { (if any_dropped { super::taint::SUFFIX } else { "" }).to_string() } else { last_tag.to_string() };
         let detail = |a: &str, b: &str| json!({"first": a, "second": b, "history": history_sample(c, 30)});
         for (label, m) in results {
             let Some(v) = &m.view else {
@@ -250,7 +250,7 @@ pub fn run(cfg: &Cfg) -> Report {
             st.inc("merge_runs", m.runs);
             st.inc("orders_merged_at_a_participant", 1);
             let dropped = any_dropped || m.dropped;
-            let suffix = format!("{}{}", if dropped { super::taint::SUFFIX } else { "" }, if any_last || m.dropped_last { super::taint::SUFFIX_LAST } else if last_script { super::taint::SUFFIX_LAST_SCRIPT } else { "" });
+            let suffix = if any_last || m.dropped_last { super::taint::SUFFIX_LAST } else if last_script { super::taint::SUFFIX_LAST_SCRIPT } else if dropped { super::taint::SUFFIX } else { "" };
             let Some(v) = &m.view else { continue };
             match &base {
                 None => base = Some(m),
